@@ -8,7 +8,21 @@
 From FR Require Import Base Utf8 Ast Analyze Sem ExprLemmas SemSound Param Parse.
 From Coq Require Import Lia NArith.
 
-Definition G (B : list N) (e : expr) : Prop := refs_ok True (fun g => In g B) e /\ zok e.
+(* look-behind bodies do not contain the \Z helper at their top *)
+Fixpoint lbz (e : expr) : Prop :=
+  match e with
+  | LookAround c la => lbz c /\ (match la with LookBehind | LookBehindNeg => zok c | _ => True end)
+  | Concat es | Alt es => (fix go (l : list expr) : Prop := match l with [] => True | x :: r => lbz x /\ go r end) es
+  | Group c | Repeat c _ _ _ | AtomicGroup c => lbz c
+  | Conditional c y n => lbz c /\ lbz y /\ lbz n
+  | _ => True
+  end.
+Fixpoint lbz_list (l : list expr) : Prop := match l with [] => True | x :: r => lbz x /\ lbz_list r end.
+Lemma lbz_concat es : lbz (Concat es) = lbz_list es. Proof. induction es; simpl in *; congruence. Qed.
+Lemma lbz_alt es : lbz (Alt es) = lbz_list es. Proof. induction es; simpl in *; congruence. Qed.
+
+Definition Z (e : expr) : Prop := zok e /\ lbz e.
+Definition G (B : list N) (e : expr) : Prop := refs_ok True (fun g => In g B) e /\ Z e.
 Definition ext (s s' : pst) : Prop := incl (p_backrefs s) (p_backrefs s').
 
 Lemma ext_refl s : ext s s. Proof. apply incl_refl. Qed.
@@ -32,25 +46,28 @@ Proof. intros He [H1 H2]. split; auto. eapply refs_mono; eauto. Qed.
 Lemma G_leaf B e : (match e with
                     | Empty | Any _ | Assertion _ | Literal _ _ | KeepOut | ContinueFromPreviousMatchEnd
                     | SubroutineCall _ | Delegate _ _ _ (DClass _) => True | _ => False end) -> G B e.
-Proof. destruct e; try (intros []; fail); try (intros _; split; exact I). destruct k; [intros _; split; exact I|intros []]. Qed.
+Proof.
+  destruct e; try (intros []; fail); try (intros _; split; [exact I|split; exact I]).
+  destruct k; [intros _; split; [exact I|split; exact I]|intros []].
+Qed.
 
 Lemma Forall_G_mono s s' l : ext s s' -> Forall (G (p_backrefs s)) l -> Forall (G (p_backrefs s')) l.
 Proof. intros He H. eapply Forall_impl; [|exact H]. intros a. now apply G_mono. Qed.
 Lemma G_concat B l : Forall (G B) l -> G B (Concat l).
 Proof.
-  intros H. unfold G. rewrite refs_ok_concat, zok_concat. induction H as [|x r [H1 H2] Hr [I1 I2]]; [split; exact I|].
-  split; split; auto.
+  intros H. unfold G, Z. rewrite refs_ok_concat, zok_concat, lbz_concat.
+  induction H as [|x r (H1 & H2 & H3) Hr (I1 & I2 & I3)]; [repeat split|]. cbn. tauto.
 Qed.
 Lemma G_alt B l : Forall (G B) l -> G B (Alt l).
 Proof.
-  intros H. unfold G. rewrite refs_ok_alt, zok_alt. induction H as [|x r [H1 H2] Hr [I1 I2]]; [split; exact I|].
-  split; split; auto.
+  intros H. unfold G, Z. rewrite refs_ok_alt, zok_alt, lbz_alt.
+  induction H as [|x r (H1 & H2 & H3) Hr (I1 & I2 & I3)]; [repeat split|]. cbn. tauto.
 Qed.
 Lemma G_alt_inv B l : G B (Alt l) -> Forall (G B) l.
 Proof.
-  unfold G. rewrite refs_ok_alt, zok_alt. induction l as [|x r IH]; intros [H1 H2]; constructor.
-  - destruct H1, H2. split; auto.
-  - destruct H1, H2. apply IH. split; auto.
+  unfold G, Z. rewrite refs_ok_alt, zok_alt, lbz_alt. induction l as [|x r IH]; intros (H1 & H2 & H3); constructor.
+  - cbn in *. tauto.
+  - apply IH. cbn in *. tauto.
 Qed.
 
 Section P.
@@ -65,7 +82,7 @@ Proof.
   intros Hmk H. unfold parse_named_backref in H. destruct (length re <? ix); [discriminate|].
   destruct (parse_id _ _ _ _) as [[id skip]|]; [|discriminate].
   destruct (parse_group_ref st id) as [g|]; [|discriminate]. destruct (N.ltb g _); [|discriminate]. inv H. cbn [fst snd].
-  split; [intros x Hx; right; exact Hx|]. destruct Hmk as [E|E]; rewrite E; split; cbn; auto.
+  split; [intros x Hx; right; exact Hx|]. destruct Hmk as [E|E]; rewrite E; (split; [|split]); cbn; auto.
 Qed.
 Lemma numbered_backref_G st ix mk r : (forall g, mk g = Backref g) \/ (forall g, mk g = SubroutineCall g) ->
   parse_numbered_backref re st ix mk = POk r ->
@@ -73,7 +90,7 @@ Lemma numbered_backref_G st ix mk r : (forall g, mk g = Backref g) \/ (forall g,
 Proof.
   intros Hmk H. unfold parse_numbered_backref in H. destruct (parse_decimal re ix) as [[e g]|]; [|discriminate].
   destruct (N.ltb g _); [|discriminate]. inv H. cbn [fst snd].
-  split; [intros x Hx; right; exact Hx|]. destruct Hmk as [E|E]; rewrite E; split; cbn; auto.
+  split; [intros x Hx; right; exact Hx|]. destruct Hmk as [E|E]; rewrite E; (split; [|split]); cbn; auto.
 Qed.
 
 Lemma parse_hex_G fl ix d r : parse_hex re fl ix d = POk r -> forall B, G B (snd r).
@@ -95,7 +112,7 @@ Proof.
   | (match ?c with _ => _ end) = POk _ => destruct c eqn:?
   | pbind ?m _ = POk _ => destruct m eqn:?; cbn [pbind] in H
   end; try discriminate;
-  try (inv H; cbn [fst snd]; split; [apply ext_refl|]; first [now apply G_leaf|split; cbn; auto]; fail);
+  try (inv H; cbn [fst snd]; split; [apply ext_refl|]; first [now apply G_leaf|(split; [|split]); cbn; auto]; fail);
   try (eapply named_backref_G; [|eassumption]; auto; fail);
   try (eapply numbered_backref_G; [|eassumption]; auto; fail);
   try (inv H; cbn [fst snd]; split; [apply ext_refl|]; eapply parse_hex_G; eassumption).
@@ -227,10 +244,11 @@ Proof.
   - pose proof (finish_G st ch Hch) as HG. destruct ch as [|c [|c2 r']]; inv H; split; auto; apply ext_refl.
 Qed.
 
-Lemma G_repeat B c lo hi gr : G B c -> G B (Repeat c lo hi gr). Proof. intros [H1 H2]. split; auto. Qed.
-Lemma G_atomic B c : G B c -> G B (AtomicGroup c). Proof. intros [H1 H2]. split; auto. Qed.
-Lemma G_group B c : G B c -> G B (Group c). Proof. intros [H1 H2]. split; auto. Qed.
-Lemma G_la B c la : G B c -> G B (LookAround c la). Proof. intros [H1 H2]. split; auto. now apply zok_la. Qed.
+Lemma G_repeat B c lo hi gr : G B c -> G B (Repeat c lo hi gr). Proof. intros (H1 & H2 & H3). split; [|split]; auto. Qed.
+Lemma G_atomic B c : G B c -> G B (AtomicGroup c). Proof. intros (H1 & H2 & H3). split; [|split]; auto. Qed.
+Lemma G_group B c : G B c -> G B (Group c). Proof. intros (H1 & H2 & H3). split; [|split]; auto. Qed.
+Lemma G_la B c la : G B c -> G B (LookAround c la).
+Proof. intros (H1 & H2 & H3). split; [|split]; auto; [now apply zok_la|]. cbn [lbz]. split; auto. destruct la; auto. Qed.
 
 Lemma step_piece : S_piece (S f).
 Proof.
@@ -318,7 +336,7 @@ Proof.
 Qed.
 
 Lemma G_bec B g : G B (Backref g) -> G B (BackrefExistsCondition g).
-Proof. intros [H1 H2]. split; auto. Qed.
+Proof. intros (H1 & H2 & H3). split; [|split]; auto. Qed.
 
 Lemma step_cond : S_cond (S f).
 Proof.
@@ -345,7 +363,7 @@ Proof.
               G (p_backrefs st2) a -> G (p_backrefs st2) b0 -> OK3 st r).
     { intros a b0 Hr Ha Hb. cbv beta iota in Hr. pb Hr E5. inv Hr. split; cbn [fst snd]; auto.
       assert (HC : G (p_backrefs st2) (Conditional inner a b0)).
-      { destruct Hin as [I1 I2], Ha as [A1 A2], Hb as [B1 B2]. split; cbn; auto. }
+      { destruct Hin as (I1 & I2 & I3), Ha as (A1 & A2 & A3), Hb as (B1 & B2 & B3). split; [|split]; cbn; auto. }
       destruct a; auto; destruct b0; auto. }
     destruct child;
       try (match type of Hg2 with G _ ?c => apply (Hpair c Empty H Hg2); now apply G_leaf end; fail).
@@ -372,7 +390,7 @@ Qed.
 Definition bs_of (st : pst) : N -> bool := fun g => existsb (N.eqb g) (p_backrefs st).
 
 Theorem parse_tree_ok e st : parse re = POk (e, st) ->
-  refs_ok True (fun g => bs_of st g = true) e /\ zok e.
+  refs_ok True (fun g => bs_of st g = true) e /\ zok e /\ lbz e.
 Proof.
   unfold parse. intros H. destruct (parse_re re (parse_fuel re) pst0 0 0) as [[[ix e0] st0]| | | |] eqn:E; try discriminate.
   cbn [pbind] in H. destruct (ix <? length re); [discriminate|]. inv H.
